@@ -23,6 +23,9 @@ pub(crate) struct PushSocket {
   outgoing_orchestrator: OutgoingMessageOrchestrator,
   pipe_read_to_endpoint_uri: RwLock<HashMap<usize, String>>,
   cached_options: ArcSwap<SocketOptions>,
+  /// Parts of a message that is being sent frame by frame (send() with MORE): they go out
+  /// together with the final part, to one peer.
+  pending_parts: parking_lot::Mutex<FrameBatch>,
 }
 
 impl PushSocket {
@@ -33,6 +36,7 @@ impl PushSocket {
       outgoing_orchestrator: OutgoingMessageOrchestrator::new(),
       pipe_read_to_endpoint_uri: RwLock::new(HashMap::new()),
       cached_options: ArcSwap::from(options_snapshot),
+      pending_parts: parking_lot::Mutex::new(FrameBatch::new()),
     }
   }
 }
@@ -66,10 +70,23 @@ impl ISocket for PushSocket {
     if !self.core.is_running() {
       return Err(ZmqError::ResourceLimitReached);
     }
+    if msg.is_more() {
+      let mut parts = self.pending_parts.lock();
+      if parts.len() >= FrameBatch::MAX_USER_FRAMES - 1 {
+        *parts = FrameBatch::new();
+        return Err(ZmqError::InvalidMessage("multipart message has too many parts".into()));
+      }
+      parts.push(msg);
+      return Ok(());
+    }
+    let mut fb = std::mem::take(&mut *self.pending_parts.lock());
+    if !fb.is_empty() {
+      fb.push(msg);
+      return self.send_multipart(fb).await;
+    }
     let sndtimeo = self.cached_options.load().sndtimeo;
     let wait_for_peer = !matches!(sndtimeo, Some(d) if d.is_zero());
 
-    let mut fb = FrameBatch::new();
     fb.push(msg);
     self.send_with_timeout(fb, wait_for_peer, sndtimeo).await
   }
@@ -77,6 +94,10 @@ impl ISocket for PushSocket {
   fn try_send_sync(&self, msg: Msg) -> Result<(), (Msg, ZmqError)> {
     if !self.core.is_running() {
       return Err((msg, ZmqError::InvalidState("Socket is closing".into())));
+    }
+    // parts of a multipart message take the buffering path in send()
+    if msg.is_more() || !self.pending_parts.lock().is_empty() {
+      return Err((msg, ZmqError::ResourceLimitReached));
     }
     let mut fb = FrameBatch::new();
     fb.push(msg);
